@@ -687,6 +687,10 @@ class Registry:
             if isinstance(st, ast.FunctionDef):
                 fi = self._fi_for_node(module, st)
                 for dec in reversed(st.decorator_list):
+                    w = self._wrapping_decorator(module, dec, fi)
+                    if w is not None:
+                        fi = w          # what the decorators above it (and the registries) receive
+                        continue
                     self._apply_decorator(module, dec, fi, env)
             elif isinstance(st, ast.ClassDef):
                 ci = self._ci_for_node(module, st)
@@ -757,6 +761,28 @@ class Registry:
                             ci = self.P.resolve_class(module, c.args[0])
                             if isinstance(ci, ClassInfo):
                                 self.table_list.append(ci.fq)
+
+    def _wrapping_decorator(self, module, dec, fi):
+        """`@helper` (a plain name, not a factory call) where helper is a one-parameter function of the package that defines a nested
+        function and returns it: the decorated name is bound to that nested function, closed over the original."""
+        if isinstance(dec, ast.Call):
+            return None
+        d = module.dotted(dec)
+        tgt = self.P.lookup(d) if d and d.split('.')[0] == self.P.PACKAGE else None
+        if not isinstance(tgt, FuncInfo) or len(tgt.params) != 1 or tgt.node.args.vararg or tgt.node.args.kwarg:
+            return None
+        inner = [st for st in tgt.node.body if isinstance(st, ast.FunctionDef)]
+        rets = [st for st in tgt.node.body if isinstance(st, ast.Return)]
+        if len(inner) != 1 or len(rets) != 1:
+            return None
+        r = rets[0].value
+        # return wrapper | return functools.wraps(func)(wrapper) | return functools.update_wrapper(wrapper, func)
+        names = {n.id for n in ast.walk(r) if isinstance(n, ast.Name)} if r is not None else set()
+        if inner[0].name not in names:
+            return None
+        wfi = self._fi_for_node(tgt.module, inner[0])
+        from .loader import WrappedFuncInfo
+        return WrappedFuncInfo(wfi, {tgt.params[0]: fi}, fi.wrapped if isinstance(fi, WrappedFuncInfo) else fi, tgt)
 
     def _fi_for_node(self, module, node):
         for fi in module.functions.values():
